@@ -84,15 +84,24 @@ def HX_Eff(Arrangement, Ntu, c, Passes=None, Rows=None, Cmin_Phase=None):
                 eff = CrossflowUnmixedEff2(Ntu, c, Rows, Cmin_Phase)
         # Cross Flow - Both Streams Mixed Effectiveness
         elif Arrangement == HX.CrFMM.value:
-            eff = (
-                1 / (1 - math.exp(-Ntu)) + c / (1 - math.exp(-Ntu * c)) - 1 / Ntu
-            ) ** -1
+            if c == 0:
+                eff = 1 - math.exp(-Ntu)  # limit of the relation for a zero capacity ratio
+            else:
+                eff = (
+                    1 / (1 - math.exp(-Ntu)) + c / (1 - math.exp(-Ntu * c)) - 1 / Ntu
+                ) ** -1
         # Cross Flow - Stream Cmax Unmixed Effectiveness
         elif Arrangement == HX.CrFMUmax.value:
-            eff = 1 - math.exp(-1 / c * (1 - math.exp(-Ntu * c)))
+            if c == 0:
+                eff = 1 - math.exp(-Ntu)  # limit of the relation for a zero capacity ratio
+            else:
+                eff = 1 - math.exp(-1 / c * (1 - math.exp(-Ntu * c)))
         # Cross Flow - Stream Cmin Unmixed Effectiveness
         elif Arrangement == HX.CrFMUmin.value:
-            eff = 1 / c * (1 - math.exp(-c * (1 - math.exp(-Ntu))))
+            if c == 0:
+                eff = 1 - math.exp(-Ntu)  # limit of the relation for a zero capacity ratio
+            else:
+                eff = 1 / c * (1 - math.exp(-c * (1 - math.exp(-Ntu))))
         # Shell and Tube - One Shell Pass; 2,4,6, etc., Tube Passes Effectiveness
         elif Arrangement == HX.ShellTube.value:
             d = (1 + c**2) ** 0.5
@@ -141,10 +150,16 @@ def HX_NTU(Arrangement, eff, c, Passes=None):
             Ntu = HX_NTU_Numerical(Arrangement, eff, c)
         # Cross Flow - Stream Cmax Unmixed NTU
         elif Arrangement == HX.CrFMUmax.value:
-            Ntu = -1 / c * math.log(1 + c * math.log(1 - eff))
+            if c == 0:
+                Ntu = -math.log(1 - eff)  # limit of the relation for a zero capacity ratio
+            else:
+                Ntu = -1 / c * math.log(1 + c * math.log(1 - eff))
         # Cross Flow - Stream Cmin Unmixed NTU
         elif Arrangement == HX.CrFMUmin.value:
-            Ntu = -math.log(1 + 1 / c * math.log(1 - eff * c))
+            if c == 0:
+                Ntu = -math.log(1 - eff)  # limit of the relation for a zero capacity ratio
+            else:
+                Ntu = -math.log(1 + 1 / c * math.log(1 - eff * c))
         # Shell and Tube - One Shell Pass; 2,4,6, etc., Tube Passes NTU
         elif Arrangement == HX.ShellTube.value:
             D1 = 1 + c - (1 + c**2) ** (1 / 4)
